@@ -48,3 +48,83 @@ theorem clip_polygon_conv (t : Tri K) (hwf : TriWF t)
 triangle of the C03 example yields two output triangles -/
 example : TriWF (K := Rat) ⟨mkVert ⟨0, 0, 0, 1⟩ [1], mkVert ⟨2, 0, 0, 1⟩ [3], mkVert ⟨0, 1, 0, 1⟩ [5]⟩ :=
   ⟨mkVert_wf _ _, mkVert_wf _ _, mkVert_wf _ _⟩
+
+/-! ### P4: every point of every output triangle is visible -/
+
+/-- The visible part V of triangle `t`, in its barycentric plane: inside the simplex and on the
+inner side of all six frustum planes. -/
+def Visible (t : Tri K) (q : Pt K) : Prop :=
+  InSimplex q ∧ ∀ p ∈ (planes : List (Plane K)), baryD p t q ≤ 0
+
+/-- wa·a + wb·b + wc·c in the plane -/
+def comb2 (wa wb wc : K) (a b c : Pt K) : Pt K :=
+  (wa * a.1 + wb * b.1 + wc * c.1, wa * a.2 + wb * b.2 + wc * c.2)
+
+theorem baryD_comb2 (p : Plane K) (t : Tri K) (wa wb wc : K) (a b c : Pt K) (hs : wa + wb + wc = 1) :
+    baryD p t (comb2 wa wb wc a b c) = wa * baryD p t a + wb * baryD p t b + wc * baryD p t c := by
+  have e : wa = 1 - wb - wc := by linarith
+  subst e
+  simp only [baryD, comb2]; ring
+
+theorem inSimplex_comb2 (wa wb wc : K) (a b c : Pt K) (h0 : 0 ≤ wa) (h1 : 0 ≤ wb) (h2 : 0 ≤ wc)
+    (hs : wa + wb + wc = 1) (ha : InSimplex a) (hb : InSimplex b) (hc : InSimplex c) :
+    InSimplex (comb2 wa wb wc a b c) := by
+  obtain ⟨a1, a2, a3⟩ := ha
+  obtain ⟨b1, b2, b3⟩ := hb
+  obtain ⟨c1, c2, c3⟩ := hc
+  refine ⟨?_, ?_, ?_⟩
+  · simp only [comb2]; positivity
+  · simp only [comb2]; positivity
+  · simp only [comb2]
+    nlinarith [mul_nonneg h0 (sub_nonneg.mpr a3), mul_nonneg h1 (sub_nonneg.mpr b3),
+      mul_nonneg h2 (sub_nonneg.mpr c3)]
+
+/-- **P4. Exactness (2-D form).** Every convex combination of the three corners of an output
+triangle is a visible point of the input triangle: in the simplex and inside all six planes. -/
+theorem clip_output_subset_visible (t : Tri K) (hwf : TriWF t)
+    (hlen : t.a.attr.length = t.b.attr.length ∧ t.b.attr.length = t.c.attr.length) :
+    ∀ tri ∈ clipTri t, ∃ s : Tri2 K, TriRep t s tri ∧
+      ∀ wa wb wc : K, 0 ≤ wa → 0 ≤ wb → 0 ≤ wc → wa + wb + wc = 1 →
+        Visible t (comb2 wa wb wc s.a s.b s.c) := by
+  intro tri htri
+  obtain ⟨s, hs, hrep⟩ := forall₂_mem_right (rep_clipTri t hwf hlen) tri htri
+  refine ⟨s, hrep, fun wa wb wc h0 h1 h2 hsum => ⟨?_, fun p hp => ?_⟩⟩
+  · obtain ⟨ia, ib, ic⟩ := clipTri2_inSimplex t s hs
+    exact inSimplex_comb2 wa wb wc _ _ _ h0 h1 h2 hsum ia ib ic
+  · have hin := clip_inside t hwf tri htri
+    have key : ∀ (c : Pt K) (v : ClipVert K), Rep t c v → v ∈ triVerts tri → baryD p t c ≤ 0 := by
+      intro c v hr hv
+      have := hin v hv p hp
+      rwa [hr.2.1, signedDist_baryPos] at this
+    rw [baryD_comb2 p t wa wb wc _ _ _ hsum]
+    have ha := key _ _ hrep.1 (by simp [triVerts])
+    have hb := key _ _ hrep.2.1 (by simp [triVerts])
+    have hc := key _ _ hrep.2.2 (by simp [triVerts])
+    nlinarith [mul_nonneg h0 (neg_nonneg.mpr ha), mul_nonneg h1 (neg_nonneg.mpr hb),
+      mul_nonneg h2 (neg_nonneg.mpr hc)]
+
+/-- `Visible` in 4-D terms: the point of `t` at coordinates `q` satisfies −w ≤ x,y,z ≤ w. -/
+theorem visible_iff (t : Tri K) (q : Pt K) :
+    Visible t q ↔ InSimplex q ∧ Inside (baryPos t q) := by
+  simp only [Visible, Inside, signedDist_baryPos]
+
+theorem baryPos_comb2 (t : Tri K) (wa wb wc : K) (a b c : Pt K) (hs : wa + wb + wc = 1) :
+    baryPos t (comb2 wa wb wc a b c) = comb4 wa wb wc (baryPos t a) (baryPos t b) (baryPos t c) := by
+  have e : wa = 1 - wb - wc := by linarith
+  subst e
+  simp only [baryPos, comb2, comb4, Vec4.mk.injEq]
+  refine ⟨?_, ?_, ?_, ?_⟩ <;> ring
+
+/-- **P4, 4-D form.** Every convex combination of the three positions of an output triangle is
+inside the frustum and is a point of the input triangle (barycentric coordinates in the simplex). -/
+theorem clip_output_subset_visible_pos (t : Tri K) (hwf : TriWF t)
+    (hlen : t.a.attr.length = t.b.attr.length ∧ t.b.attr.length = t.c.attr.length) :
+    ∀ tri ∈ clipTri t, ∀ wa wb wc : K, 0 ≤ wa → 0 ≤ wb → 0 ≤ wc → wa + wb + wc = 1 →
+      Inside (comb4 wa wb wc tri.a.pos tri.b.pos tri.c.pos) ∧
+      ∃ q : Pt K, InSimplex q ∧ comb4 wa wb wc tri.a.pos tri.b.pos tri.c.pos = baryPos t q := by
+  intro tri htri wa wb wc h0 h1 h2 hsum
+  obtain ⟨s, hrep, hv⟩ := clip_output_subset_visible t hwf hlen tri htri
+  have hq := (visible_iff t _).mp (hv wa wb wc h0 h1 h2 hsum)
+  have e : comb4 wa wb wc tri.a.pos tri.b.pos tri.c.pos = baryPos t (comb2 wa wb wc s.a s.b s.c) := by
+    rw [baryPos_comb2 t wa wb wc _ _ _ hsum, hrep.1.2.1, hrep.2.1.2.1, hrep.2.2.2.1]
+  exact ⟨e ▸ hq.2, _, hq.1, e⟩
